@@ -653,10 +653,15 @@ func (t *Teamserver) DispatchEvent(pk packager.Package) {
 			if val, ok := pk.Body.Info["Name"]; ok {
 				t.ListenerRemove(val.(string))
 
-				var p = events.Listener.ListenerRemove(val.(string))
+				// stopping a HTTP listener takes seconds: by the time this request is through, another
+				// removal may have taken the listener and the name may belong to a new one. Announcing
+				// the removal then would take a running listener out of every operator's table.
+				if !t.ListenerExist(val.(string)) {
+					var p = events.Listener.ListenerRemove(val.(string))
 
-				t.EventAppend(p)
-				t.EventBroadcast("", p)
+					t.EventAppend(p)
+					t.EventBroadcast("", p)
+				}
 			}
 
 			break
